@@ -1095,7 +1095,7 @@ func ip(n int) *int { return &n }
 // generators
 
 type bias struct {
-	val, str, falsy, dot, iter, err, halt, empty, input, arr, cond, note int
+	val, str, falsy, dot, iter, err, halt, empty, input, arr, cond, note, nul int
 }
 
 func weighted(t *rapid.T, label string, ws map[string]int) string {
@@ -1118,7 +1118,7 @@ func genItems(t *rapid.T, b bias, guards []string, depth, minLen int) []item {
 	out := make([]item, 0, n)
 	for i := 0; i < n; i++ {
 		ws := map[string]int{"val": b.val, "str": b.str, "falsy": b.falsy, "dot": b.dot, "iter": b.iter, "err": b.err, "halt": b.halt, "herr": 2 * b.halt,
-			"empty": b.empty, "input": b.input, "inputs": b.input, "debug": b.note, "stderr": b.note}
+			"empty": b.empty, "input": b.input, "inputs": b.input, "debug": b.note, "stderr": b.note, "nul": b.nul}
 		if depth < 2 {
 			ws["arr"] = b.arr
 			ws["if"] = b.cond
@@ -1130,6 +1130,8 @@ func genItems(t *rapid.T, b bias, guards []string, depth, minLen int) []item {
 			out = append(out, item{K: "val", V: rapid.SampledFrom(stringConsts).Draw(t, "string")})
 		case "falsy":
 			out = append(out, item{K: "val", V: rapid.SampledFrom(falsyConsts).Draw(t, "falsy")})
+		case "nul":
+			out = append(out, item{K: "val", V: rapid.SampledFrom([]string{`"a\u0000b"`, `"\u0000"`, `"end\u0000"`, `"\u0000start"`}).Draw(t, "nulstring")})
 		case "err":
 			out = append(out, item{K: "err", V: rapid.SampledFrom(payloads).Draw(t, "payload")})
 		case "herr":
@@ -1445,7 +1447,7 @@ func TestC15(t *testing.T) {
 		var c cliCase
 		genStream(t, &c, streamBias{maxDocs: 4, tailOdds: 9, hostile: true})
 		genFlags(t, &c, [9]int{3, 3, 4, 2, 2, 3, 1, 1, 1})
-		algQuery(t, &c, bias{val: 3, str: 5, dot: 6, iter: 3, err: 1, empty: 1, arr: 2, cond: 2, note: 1})
+		algQuery(t, &c, bias{val: 3, str: 4, dot: 6, iter: 3, err: 1, empty: 1, arr: 2, cond: 3, note: 1, nul: 3})
 		if msg := do("terminators", c); msg != "" {
 			t.Fatalf("%s", rec.Fail("terminators", c, "%s", msg))
 		}
